@@ -7,7 +7,7 @@ import warnings
 from hypothesis import strategies as st
 
 from .. import fakedul as fd, refcmd, svc
-from ..common import Violation, HarnessError, hyp_search, parallel, lib_frame
+from ..common import Violation, HarnessError, hyp_search, parallel, lib_frame, quiet_warnings
 from .c17 import alias
 
 LEVEL = 'exploration'
@@ -311,7 +311,7 @@ def nontrivial(matches):
 
 
 def shard(ctx, job):
-    warnings.simplefilter('ignore')
+    quiet_warnings()
 
     def scp(value):
         multi = scp_case(value)
@@ -334,7 +334,7 @@ def shard(ctx, job):
 
 
 def run(ctx):
-    warnings.simplefilter('ignore')
+    quiet_warnings()
     ctx.rule = ('Hypothesis: match sequences of 0-12 (identifier, pending code FF00/FF01) with generated identifiers '
                 '(odd-length values, long descriptions), 3 transfer syntaxes, maximum PDU lengths down to 32 bytes; '
                 'provider side through qr_find_scp / modality_work_list_scp (wire read by the reference codecs), user '
@@ -348,7 +348,7 @@ def run(ctx):
 
 
 def replay(case):
-    warnings.simplefilter('ignore')
+    quiet_warnings()
     m = [(a, b) for a, b in case['matches']]
     if case['side'] == 'scp':
         if case.get('reuse'):
